@@ -1,6 +1,6 @@
 (* The built-in emptiness layer of the discrete-space grids equals actual cell emptiness after
    every history that does not itself write or detach that layer (Model/PropLayer.v). *)
-From Coq Require Import ZArith List Bool Lia.
+From Coq Require Import ZArith List Bool Lia FinFun.
 From Mesa Require Import Common.ListX Model.PropLayer Proofs.PropLayerProofs.
 Import ListNotations.
 Open Scope Z_scope.
@@ -487,4 +487,87 @@ Proof.
   intros H st Hs c.
   assert (s_dims st = dims) as Hd by (destruct (run_state_frame (init d multi cap dims) ops) as [_ [F _]]; destruct d; exact F).
   rewrite <- Hd. apply select_exact_actual_st; [apply reachable_empty_ok; exact H|exact Hs].
+Qed.
+
+(* ---------- "Cell is full": the statement executed before the raise changes nothing ---------- *)
+Lemma nodup_app {A} (a b : list A) :
+  NoDup a -> NoDup b -> (forall x, In x a -> ~ In x b) -> NoDup (a ++ b).
+Proof.
+  induction a as [|x a IH]; simpl; intros Ha Hb Hd.
+  { exact Hb. }
+  inversion Ha as [|x' a' Hnin Hnd]; subst. apply NoDup_cons.
+  { intros H. apply in_app_or in H. destruct H as [H|H].
+    { exact (Hnin H). }
+    { exact (Hd x (or_introl eq_refl) H). } }
+  { apply IH; auto. }
+Qed.
+Lemma nodup_zrange lo hi : NoDup (zrange lo hi).
+Proof.
+  unfold zrange. apply Injective_map_NoDup; [|apply seq_NoDup]. intros i j H. lia.
+Qed.
+Lemma nodup_all_coords dims : NoDup (all_coords dims).
+Proof.
+  induction dims as [|d t IH]; simpl; [constructor; [intros []|constructor]|].
+  generalize (nodup_zrange 0 (d - 1)). generalize (zrange 0 (d - 1)) as xs.
+  induction xs as [|x xs IHx]; intros Hx; simpl; [constructor|]. inversion Hx; subst.
+  apply nodup_app.
+  - apply Injective_map_NoDup; [|exact IH]. intros a b H. inversion H. reflexivity.
+  - apply IHx. assumption.
+  - intros c Hc Hc'. apply in_map_iff in Hc. destruct Hc as [c0 [<- _]].
+    apply in_flat_map in Hc'. destruct Hc' as [x' [Hx' Hin]]. apply in_map_iff in Hin.
+    destruct Hin as [c1 [E _]]. inversion E; subst. contradiction.
+Qed.
+
+Lemma aset_absent a c v : ~ In c (akeys a) -> aset a c v = a.
+Proof.
+  unfold aset, akeys. induction a as [|[k x] a IH]; simpl; intros H; [reflexivity|].
+  destruct (coord_eqb k c) eqn:E.
+  - apply coord_eqb_eq in E. exfalso. apply H. left. exact E.
+  - simpl. f_equal. apply IH. intros Hin. apply H. right. exact Hin.
+Qed.
+Lemma aset_same a c v : NoDup (akeys a) -> aget a c = Some v -> aset a c v = a.
+Proof.
+  induction a as [|[k x] a IH]; simpl; intros Hn Hg; [discriminate|]. inversion Hn; subst.
+  unfold aset in *. simpl. destruct (coord_eqb k c) eqn:E.
+  - inversion Hg; subst. apply coord_eqb_eq in E. subst k. f_equal. apply (aset_absent a c v). assumption.
+  - f_equal. apply IH; assumption.
+Qed.
+Lemma upd_nth_same {A} (l : list A) n x : nth_error l n = Some x -> upd_nth l n x = l.
+Proof.
+  revert n. induction l as [|y l IH]; intros [|n]; simpl; try discriminate.
+  - intros [= ->]. reflexivity.
+  - intros H. f_equal. apply IH. exact H.
+Qed.
+Lemma set_data_same st id L : get_obj st id = Some L -> set_data st id L (l_data L) = st.
+Proof.
+  intros H. unfold set_data, set_objs. unfold get_obj in H. destruct (id <? 0); [discriminate|].
+  replace {| l_name := l_name L; l_dt := l_dt L; l_dims := l_dims L; l_data := l_data L |} with L by (destruct L; reflexivity).
+  rewrite (upd_nth_same _ _ _ H). destruct st; reflexivity.
+Qed.
+
+(* in a state whose emptiness layer is right, `self.empty = False` on a full cell is a no-op *)
+Lemma setattr_full_noop st c :
+  inv st -> s_discrete st = true -> einv st -> valid_coord (s_dims st) c = true ->
+  cell_full st c = true -> cell_setattr st c EMPTY 0 = st.
+Proof.
+  intros I Hd E Hc Hf. pose proof (cell_full_occupied st c (e_cap _ E) Hf) as Ho.
+  destruct E as [E0 E2 E3 E4 [L [HL [Hn [Hdims Hv]]]]].
+  rewrite (setattr_empty st c 0 L I Hd E3 HL Hdims Hc).
+  rewrite aset_same; [apply set_data_same; exact HL| |].
+  - rewrite (inv_keys _ I _ _ HL). apply nodup_all_coords.
+  - rewrite (Hv c Hc), Ho. reflexivity.
+Qed.
+
+(* every rejection - "Cell is full" included - leaves a clean-reachable state exactly as it was *)
+Lemma atomic_clean d multi cap dims ops o st' k :
+  (d = true -> 0 <= cap /\ clean ops = true) ->
+  let st := run_state (init d multi cap dims) ops in
+  step st o = (st', RErr k) -> st' = st.
+Proof.
+  intros H st. assert (inv st) as I by (apply run_state_inv; apply inv_init).
+  apply step_err_unchanged; [exact I|]. intros Hd c Hc Hf.
+  destruct d.
+  - destruct (H eq_refl) as [H0 Hs]. apply setattr_full_noop; auto.
+    apply run_einv; [apply inv_init|reflexivity|apply einv_init; exact H0|exact Hs].
+  - destruct (run_state_frame (init false multi cap dims) ops) as [F _]. fold st in F. simpl in F. congruence.
 Qed.
